@@ -158,7 +158,7 @@ def plan(ctx):
 
 
 def run(ctx):
-    ctx.budget = ctx.budget or (300 if ctx.quick else 2400)
+    ctx.budget = ctx.budget or (300 if ctx.quick else 4200)
     cases = plan(ctx)
     ctx.level = 'exploration'
     evaluations = 0
